@@ -161,8 +161,10 @@ def exec_flw(scen_file, trace_file, timeout=600, sub="flw", extra=(), env=None):
     return (int(m.group(1)), int(m.group(2))) if m else (0, 0)
 
 
-def judge(mon, trace_file, metadir, timeout=900, env=None):
+def judge(mon, trace_file, metadir, timeout=None, env=None):
     """Runs a monitor module over a trace; returns (bads, counts, consumed, nlines)."""
+    if timeout is None:
+        timeout = 900 if os.environ.get("VERIF_TIER", "quick") == "quick" else 5400
     nlines = sum(1 for _ in open(trace_file))
     if nlines == 0:
         return [], [], 0, 0
